@@ -156,7 +156,12 @@ f_ed (void)
     }
   else
     {				/* st_num_arg == 4 */
-      /* ed(fname,writefn,exitfn,restricted) */
+      /* ed(fname,writefn,exitfn,restricted): with four arguments the
+       * dispatcher checks none of them (min_arg is 0) */
+      if (!((sp - 3)->type == T_STRING))
+        bad_argument (sp - 3, T_STRING, 1, F_ED);
+      if (!((sp - 2)->type == T_STRING))
+        bad_argument (sp - 2, T_STRING, 2, F_ED);
       if (!((sp - 1)->type == T_STRING))
         bad_argument (sp - 1, T_STRING, 3, F_ED);
       if (!(sp->type == T_NUMBER))
